@@ -166,8 +166,9 @@ def run(ctx):
             ok_i = idx is not None and is_param(idx) and pf.locals[idx[1]]['ty'] == 'u16'
             v, bad = layout.unwrap_value(expand(val, fx, 3, layout.noinl(fx)))
             ok_v = layout.is_read_term(v) and bindings.get(v[3], ('', ''))[1] == 'duration' and not bad
-            ctx.inst('O2', 'frame_times#store', ok_i and ok_v, 'frame_times[%s] = %s; must be frame_times[frame_id] = frame header duration'
-                     % (show(idx), show(val)), site[2], key=pf.name + '|O2|store')
+            always = q.must_pass(pf, 0, site[1])
+            ctx.inst('O2', 'frame_times#store', ok_i and ok_v and always, 'frame_times[%s] = %s, %s; must be frame_times[frame_id] = frame header duration on every successful path'
+                     % (show(idx), show(val), 'unconditionally' if always else 'ONLY CONDITIONALLY'), site[2], key=pf.name + '|O2|store')
     ra = ctx.anchor('asefile::parse::read_aseprite')
     if ra is not None:
         cs = q.calls(ra, 'asefile::parse::parse_frame')
